@@ -890,7 +890,7 @@ func extraFunctionExprs(fns []funcInfo) []string {
 		"jpArray":       {"nums", "strs", "objs", "nested", "`[3,1,3,2,1]`", "objs[*].s", "mixed"},
 		"jpArrayNumber": {"nums", "`[3,1,3,2]`", "objs[*].k"},
 		"jpArrayString": {"strs", "objs[*].s", "`[\"dev\",\"dev\",\"ops\"]`"},
-		"jpObject":      {"o1", "o2", "objs[0]"},
+		"jpObject":      {"o1", "o3", "o2", "objs[0]"},
 		"jpString":      {"s", "'a'", "strs[0]"},
 		"jpNumber":      {"n", "`2`", "nums[0]"},
 		"jpExpref":      {"&k", "&@", "&s"},
@@ -935,6 +935,24 @@ func extraFunctionExprs(fns []funcInfo) []string {
 	return out
 }
 
+// knownLexChars: the characters the pinned lexer mentions. A changed tree that teaches the
+// lexer a new character has probably gained new syntax: expressions using it are added.
+const knownLexChars = ".*,:{}]()@-09[\"'`|<>!=&?\\ \t\n\r"
+
+func extraSyntaxExprs(chars []string) []string {
+	var out []string
+	for _, c := range chars {
+		if len(c) != 1 || strings.Contains(knownLexChars, c) || c[0] >= 'a' && c[0] <= 'z' || c[0] >= 'A' && c[0] <= 'Z' || c[0] >= '0' && c[0] <= '9' || c == "_" {
+			continue
+		}
+		for _, t := range []string{"X", "X.nums", "X.objs[0].k", "nums | X", "objs[*].{k: k, r: X.n}", "objs[*].[k, X.s]", "[X, nums]", "X[0]", "Xnums", "nums X strs", "nums X `1`", "X(nums)", "objs[?k > X.n]",
+			"sort_by(objs, &X.n)", "X.o1.b.c", "length(X)", "nums[X]", "o1.X", "X | [0]", "type(X)", "objs[?X].k", "X == @", "o1.b.c[0] X", "X X"} {
+			out = append(out, strings.Replace(t, "X", c, -1))
+		}
+	}
+	return out
+}
+
 func loadSites(path string) {
 	b, err := os.ReadFile(path)
 	if err != nil {
@@ -943,11 +961,12 @@ func loadSites(path string) {
 	var rp struct {
 		Sites     []SiteInfo `json:"sites"`
 		Functions []funcInfo `json:"functions"`
+		LexChars  []string   `json:"lex_chars"`
 	}
 	if err := json.Unmarshal(b, &rp); err != nil {
 		fatal2("site table: %v", err)
 	}
-	extraExprs = extraFunctionExprs(rp.Functions)
+	extraExprs = append(extraFunctionExprs(rp.Functions), extraSyntaxExprs(rp.LexChars)...)
 	siteTable = rp.Sites
 	siteWrite = make([]bool, len(siteTable))
 	for i, s := range siteTable {
